@@ -340,26 +340,43 @@ class LoopTr:
                 name = st.target.id
                 lines.append('%slet %s := %s %s %s' % (indent, name, self.expr(st.target, env), self.AUG[type(st.op)], self.expr(st.value, env)))
                 env = dict(env, **{name: name})
-            elif isinstance(st, ast.If) and not st.orelse:
+            elif isinstance(st, ast.If):
                 test = st.test
                 if isinstance(test, ast.UnaryOp) and isinstance(test.op, ast.Not):
                     cond = '%s = 0' % self.expr(test.operand, env)
                 else:
                     cond = '%s ≠ 0' % self.expr(test, env)
-                inner = []
-                env2 = self.block(st.body, env, inner, indent + '    ')
-                changed = sorted(k for k in env2 if k not in env or True and any(
-                    isinstance(x, (ast.Assign, ast.AugAssign)) and (x.targets[0].id if isinstance(x, ast.Assign) else x.target.id) == k
-                    for x in st.body))
+
+                def assigned(body):
+                    names = []
+                    for x in body:
+                        if isinstance(x, ast.Assign) and len(x.targets) == 1 and isinstance(x.targets[0], ast.Name):
+                            names.append(x.targets[0].id)
+                        elif isinstance(x, ast.AugAssign) and isinstance(x.target, ast.Name):
+                            names.append(x.target.id)
+                        else:
+                            raise Decline('unsupported statement inside an if of a loop')
+                    return names
+                a_then, a_else = assigned(st.body), assigned(st.orelse)
+                changed = sorted(set(a_then) | set(a_else))
                 for k in changed:
-                    if k not in env:
-                        raise Decline('variable %s first assigned inside an if' % k)
+                    # a variable first assigned inside the if must be assigned on both paths
+                    if k not in env and not (k in a_then and k in a_else):
+                        raise Decline('variable %s assigned on one path of an if only' % k)
+                inner_t, inner_e = [], []
+                env_t = self.block(st.body, env, inner_t, indent + '    ')
+                env_e = self.block(st.orelse, env, inner_e, indent + '    ')
                 tup = '(%s)' % ', '.join(changed) if len(changed) > 1 else changed[0]
+                tup_t = '(%s)' % ', '.join(env_t[k] for k in changed) if len(changed) > 1 else env_t[changed[0]]
+                tup_e = '(%s)' % ', '.join(env_e[k] for k in changed) if len(changed) > 1 else env_e[changed[0]]
                 lines.append('%slet %s :=' % (indent, tup))
                 lines.append('%s  if %s then' % (indent, cond))
-                lines += inner
-                lines.append('%s    %s' % (indent, tup))
-                lines.append('%s  else %s' % (indent, tup))
+                lines += inner_t
+                lines.append('%s    %s' % (indent, tup_t))
+                lines.append('%s  else' % indent)
+                lines += inner_e
+                lines.append('%s    %s' % (indent, tup_e))
+                env = dict(env, **{k: k for k in changed})
             else:
                 raise Decline('unsupported loop statement %s' % type(st).__name__)
         return env
